@@ -100,8 +100,9 @@ pub fn worker(id: &str, tier: &str, seed: u64, w: u64, n: u64) -> i32 {
     let mut sum = WorkerSummary::default();
     let mut seen: BTreeSet<u64> = BTreeSet::new();
     let stdout = std::io::stdout();
-    let mut i = w;
+    let mut i = worker_start(w);
     while i < cfg.runs {
+        announce(i);
         let mut rng = Rng::keyed(seed, i, "workload");
         let (wl, k) = workloads::pick(&cfg, i);
         let sc = match workloads::make(wl, &mut rng, &cfg, k) {
@@ -156,6 +157,69 @@ pub fn worker(id: &str, tier: &str, seed: u64, w: u64, n: u64) -> i32 {
     let mut o = stdout.lock();
     let _ = writeln!(o, "{}", serde_json::to_string(&serde_json::json!({"summary": sum})).unwrap());
     0
+}
+
+/// Environment variable through which a restarted worker learns where to continue.
+pub const START_ENV: &str = "VERIF_WORKER_START";
+
+pub fn worker_start(default: u64) -> u64 {
+    std::env::var(START_ENV).ok().and_then(|s| s.parse().ok()).unwrap_or(default)
+}
+
+/// announce the unit of work a worker is about to start (the supervisor restarts after it if the
+/// code under test brings the whole process down, e.g. by a stack overflow)
+pub fn announce(i: u64) {
+    let o = std::io::stdout();
+    let mut o = o.lock();
+    let _ = writeln!(o, "{{\"at\":{i}}}");
+    let _ = o.flush();
+}
+
+/// Run `nw` worker processes; a worker that is killed by a signal (the compiler under test
+/// crashed the process) is restarted behind the unit of work it had announced, and the crash is
+/// returned as a note. Returns all output lines and the crash notes.
+pub fn supervise(nw: u64, mk: &dyn Fn(u64) -> Command) -> Result<(Vec<String>, Vec<String>), String> {
+    let mut handles = Vec::new();
+    for w in 0..nw {
+        let mut c = mk(w).stdout(Stdio::piped()).stderr(Stdio::null()).spawn().map_err(|e| e.to_string())?;
+        let out = c.stdout.take().unwrap();
+        handles.push((w, std::thread::spawn(move || {
+            let lines: Vec<String> = BufReader::new(out).lines().map_while(Result::ok).collect();
+            let st = c.wait().ok().and_then(|s| s.code());
+            (lines, st)
+        })));
+    }
+    let mut all = Vec::new();
+    let mut notes = Vec::new();
+    let mut pending = handles;
+    let mut restarts = 0;
+    while let Some((w, h)) = pending.pop() {
+        let (lines, st) = h.join().map_err(|_| "collector thread panicked".to_string())?;
+        let has_summary = lines.iter().any(|l| l.starts_with("{\"summary\""));
+        let last_at = lines.iter().rev().find_map(|l| l.strip_prefix("{\"at\":").and_then(|x| x.trim_end_matches('}').parse::<u64>().ok()));
+        all.extend(lines.into_iter().filter(|l| !l.starts_with("{\"at\":")));
+        match st {
+            Some(0) | Some(2) if has_summary => {}
+            None | Some(_) if !has_summary && st != Some(2) => {
+                // killed by a signal or aborted: the code under test took the process down
+                let Some(at) = last_at else { return Err(format!("worker {w} ended abnormally before it started (status {st:?})")) };
+                restarts += 1;
+                if restarts > 20_000 {
+                    return Err("too many worker crashes".into());
+                }
+                notes.push(format!("unit of work {at}: the compiler under test crashed the worker process (status {st:?}, e.g. stack overflow); skipped"));
+                let mut c = mk(w).env(START_ENV, (at + nw).to_string()).stdout(Stdio::piped()).stderr(Stdio::null()).spawn().map_err(|e| e.to_string())?;
+                let out = c.stdout.take().unwrap();
+                pending.push((w, std::thread::spawn(move || {
+                    let lines: Vec<String> = BufReader::new(out).lines().map_while(Result::ok).collect();
+                    let st = c.wait().ok().and_then(|s| s.code());
+                    (lines, st)
+                })));
+            }
+            other => return Err(format!("worker {w} ended abnormally (status {other:?})")),
+        }
+    }
+    Ok((all, notes))
 }
 
 #[derive(Deserialize, Clone, Debug, Default)]
@@ -239,62 +303,43 @@ pub fn check(id: &str, tier: &str) -> i32 {
     let nw: u64 = std::env::var("VERIF_WORKERS").ok().and_then(|s| s.parse().ok()).unwrap_or_else(|| std::thread::available_parallelism().map(|n| n.get() as u64).unwrap_or(8));
     println!("VERIF_SEED={seed} property={id} tier={tier} runs={} workers={nw}", cfg.runs);
     let exe = std::env::current_exe().expect("exe");
-    let mut children = Vec::new();
-    for w in 0..nw {
-        let c = Command::new(&exe)
-            .args(["worker", id, tier, &seed.to_string(), &w.to_string(), &nw.to_string()])
-            .stdout(Stdio::piped())
-            .stderr(Stdio::null())
-            .spawn()
-            .expect("spawn worker");
-        children.push(c);
-    }
     let mut total = Stats::default();
     let mut hashes: BTreeSet<u64> = BTreeSet::new();
     let mut samples = Vec::new();
     let mut found: Vec<FoundLine> = Vec::new();
     let mut harness: Option<String> = None;
-    let mut handles = Vec::new();
-    for mut c in children {
-        let out = c.stdout.take().unwrap();
-        handles.push(std::thread::spawn(move || {
-            let mut lines = Vec::new();
-            for l in BufReader::new(out).lines().map_while(Result::ok) {
-                lines.push(l);
+    let mk = |w: u64| -> Command {
+        let mut c = Command::new(&exe);
+        c.args(["worker", id, tier, &seed.to_string(), &w.to_string(), &nw.to_string()]);
+        c
+    };
+    match supervise(nw, &mk) {
+        Err(e) => harness = Some(e),
+        Ok((lines, notes)) => {
+            for n in notes {
+                total.note(&n);
             }
-            let st = c.wait().ok().and_then(|s| s.code());
-            (lines, st)
-        }));
-    }
-    for h in handles {
-        let (lines, st) = h.join().unwrap();
-        let mut got_summary = false;
-        for l in lines {
-            let v: serde_json::Value = match serde_json::from_str(&l) {
-                Ok(v) => v,
-                Err(_) => continue,
-            };
-            if let Some(f) = v.get("found") {
-                if let Ok(fl) = serde_json::from_value::<FoundLine>(f.clone()) {
-                    found.push(fl);
-                }
-            } else if let Some(s) = v.get("summary") {
-                if let Ok(ws) = serde_json::from_value::<WorkerSummary>(s.clone()) {
-                    got_summary = true;
-                    total.merge(&ws.stats);
-                    hashes.extend(ws.hashes.iter().copied());
-                    if samples.len() < 3 {
-                        samples.extend(ws.samples.into_iter().take(1));
+            for l in lines {
+                let v: serde_json::Value = match serde_json::from_str(&l) {
+                    Ok(v) => v,
+                    Err(_) => continue,
+                };
+                if let Some(f) = v.get("found") {
+                    if let Ok(fl) = serde_json::from_value::<FoundLine>(f.clone()) {
+                        found.push(fl);
                     }
-                    if ws.harness.is_some() && harness.is_none() {
-                        harness = ws.harness;
+                } else if let Some(s) = v.get("summary") {
+                    if let Ok(ws) = serde_json::from_value::<WorkerSummary>(s.clone()) {
+                        total.merge(&ws.stats);
+                        hashes.extend(ws.hashes.iter().copied());
+                        if samples.len() < 3 {
+                            samples.extend(ws.samples.into_iter().take(1));
+                        }
+                        if ws.harness.is_some() && harness.is_none() {
+                            harness = ws.harness;
+                        }
                     }
                 }
-            }
-        }
-        if !got_summary || st != Some(0) {
-            if harness.is_none() {
-                harness = Some(format!("worker ended abnormally (status {st:?})"));
             }
         }
     }
